@@ -7,6 +7,7 @@ mod suite05;
 mod suite06;
 mod suite07;
 mod suite13;
+mod suite14;
 mod suite19;
 
 use common::Rng;
@@ -22,6 +23,8 @@ fn exec(suite: u32, input: &[u64]) -> Vec<u64> {
         60 => suite06::exec(input),
         70 => suite07::exec(input),
         130 => suite13::exec(input),
+        140 => suite14::exec140(input),
+        150 => suite14::exec150(input),
         190 => suite19::exec(input),
         _ => vec![998],
     });
@@ -82,6 +85,8 @@ fn main() {
                 60 => suite06::gen(tier, &mut rng, &mut emit),
                 70 => suite07::gen(tier, &mut rng, &mut emit),
                 130 => suite13::gen(tier, &mut rng, &mut emit),
+                140 => suite14::gen140(tier, &mut rng, &mut emit),
+                150 => suite14::gen150(tier, &mut rng, &mut emit),
                 190 => suite19::gen(tier, &mut rng, &mut emit),
                 _ => {}
             }
